@@ -256,7 +256,8 @@ def c08_fresh_process_extra(seed, tier):
 
 
 def gen_pairs_optimize(seed, tier, start):
-    cs = gen_modules(seed, tier, start, 240, 6000)
+    cs = gen_cases.gen_matrix_cases(start)
+    cs = cs + gen_modules(seed, tier, start + len(cs), 240, 6000)
     for c in cs:
         o = json.loads(c["options"]); o["optimize"] = True
         a = dict(o); a["optimize"] = False
@@ -343,9 +344,10 @@ def gen_c14(seed, tier, start):
                  "<Comp>{a ? b : val}</Comp>", "<Comp>{foo.bar}</Comp>", "<Comp>{[a]}</Comp>", "<Comp>{<Comp>{a}{b}</Comp>}</Comp>",
                  "<NS.Item>{<KeepAlive>t</KeepAlive>}</NS.Item>", "<div>{a}</div>", "<div>{fn()}</div>"]
     not_on = ["<div onClick={fn} id={a} />", "<Comp onUpdate:x={fn}>{a}</Comp>", "<div once={a} online={b} />"]
-    not_merge = ["<div class={a} id=\"i\" onClick={fn} />", "<Comp title={a}>{b}</Comp>"]
+    not_merge = ["<div class={a} id=\"i\" onClick={fn} />", "<Comp title={a}>{b}</Comp>", "<div id=\"i\" on={{ click: fn }} />",
+                 "<Comp title={a} nativeOn={{ click: fn }} id=\"j\">{b}</Comp>", "<div on={{ click: fn }} />"]
     bases = [({}, ""), ({"pragma": "h"}, ""), ({"optimize": True}, ""), ({"pragma": "custom", "optimize": True}, ""),
-             ({}, "/* @jsx h */\n"), ({"optimize": True}, "// @jsx  hh\n")]
+             ({}, "/* @jsx h */\n"), ({"optimize": True}, "// @jsx  hh\n"), ({"transformOn": True}, ""), ({"transformOn": True, "optimize": True}, "")]
     for srcs, key, dflt in [(not_slots, "enableObjectSlots", True), (not_on, "transformOn", False), (not_merge, "mergeProps", True),
                             (not_slots[:4] + not_on[:1], "transformOn", False), (not_slots[:6], "mergeProps", True)]:
         for s in srcs:
@@ -863,13 +865,13 @@ PROPS = {
     "C19": {"gen": gen_types, "judge": judge_c19, "trusted": ["the expected event set is the one the generator encoded"], "assumptions": []},
     "C20": {"gen": gen_types, "judge": judge_c20, "trusted": ["JavaScript object-literal semantics: later entries and spreads override earlier ones"], "assumptions": []},
     "C07": {
-        "gen": lambda seed, tier, start: gen_modules(seed, tier, start, 300, 8000),
+        "gen": lambda seed, tier, start: (lambda m: m + gen_modules(seed, tier, start + len(m), 300, 8000))(gen_cases.gen_matrix_cases(start)),
         "judge": judge_c07,
         "trusted": ["`printed output re-parses` is a statement about SWC's printer and parser, checked per case, not proved"],
         "assumptions": ["module level: C07_module_is_jsx_free proves the model's whole transform JSX-free for every grammatical module (Spec/Plain.gram, re-checked on every parsed input of the run) with the resolveType hooks as hypotheses; those hypotheses are discharged when the option is off, with it on the census of the real output of each case covers the hooks"],
     },
     "C08": {
-        "gen": lambda seed, tier, start: gen_modules(seed, tier, start, 260, 6000) + gen_cases.gen_types_cases(seed, 60 if tier == "quick" else 1500, start + 10000),
+        "gen": lambda seed, tier, start: gen_modules(seed, tier, start, 260, 6000) + gen_cases.gen_types_cases(seed, 160 if tier == "quick" else 3000, start + 10000),
         "judge": judge_c08,
         "extra": c08_fresh_process_extra,
         "trusted": ["stack depth, wall-clock time and process-level nondeterminism cannot be exhibited by a Gallina model; they are covered by the harness's child-process runs only"],
